@@ -200,9 +200,9 @@ func mutate(rng *rand.Rand, s *S, past []S) {
 		}
 	case 10: // back to an earlier state
 		if len(past) > 0 {
-			g := s.Global
+			g, rs := s.Global, s.Resp
 			*s = past[rng.Intn(len(past))].Clone()
-			s.Global = g
+			s.Global, s.Resp = g, rs
 		}
 	case 11: // move one path to another backend
 		if ks := sortedKeys(s.Hosts); len(ks) > 0 {
@@ -248,6 +248,10 @@ func Gen(rng *rand.Rand, wide bool) (int, []Step) {
 		}
 		if st.Full && rng.Intn(3) == 0 {
 			cur.Global++
+		}
+		if st.Full && rng.Intn(3) == 0 {
+			// the custom responses of the global config appear, change or go away
+			cur.Resp = rng.Intn(4)
 		}
 		if !st.Full && rng.Intn(2) == 0 {
 			for j := rng.Intn(3); j > 0; j-- {
